@@ -393,10 +393,49 @@ pub fn run_check(id: &str, tier: &str, seed: u64) -> i32 {
         });
         let complete = e.complete;
         merge(&mut agg, e.agg);
+        let mut extra = extra;
+        let mut e2e_exit = 0;
+        if let Ok(bin) = std::env::var("VMON_PLUGIN_BIN") {
+            let r = crate::e2e_checks::crash_sessions(&bin, seed, thorough);
+            extra["e2e_crash_sessions"] = r.coverage;
+            extra["e2e_rule_evaluations"] = json!(r.evals);
+            let want: &[&str] = match id {
+                "C05" => &["R05|"],
+                "C08" => &["R08a|", "R08b|", "R08c|"],
+                "C09" => &["R09|"],
+                _ => &[],
+            };
+            let known = load_known();
+            for (sig, (n, w)) in r.violations.iter() {
+                if !want.iter().any(|p| sig.starts_with(p)) {
+                    *agg.cross.entry(format!("e2e:{sig}")).or_insert(0) += n;
+                    continue;
+                }
+                if let Some((p, k, what)) = known.matches(id, sig) {
+                    println!("KNOWN-FINDING: property={p} {k} -- {what}");
+                    continue;
+                }
+                let dir = format!("{}/replays", out_dir());
+                let _ = std::fs::create_dir_all(&dir);
+                let path = format!("{dir}/{id}-e2e-{}.json", sig.replace('|', "_").replace('=', "").chars().take(80).collect::<String>());
+                let _ = std::fs::write(&path, serde_json::to_string_pretty(&json!({"property": id, "engine": "e2e-crash", "signature": sig, "witness": w, "count": n, "seed": seed})).unwrap());
+                println!("VIOLATION property={id} replay={path}");
+                eprintln!("  {sig}: {}", w.chars().take(600).collect::<String>());
+                e2e_exit = 1;
+            }
+            for i in r.inconclusive {
+                *agg.inconclusive.entry(format!("e2e: {i}")).or_insert(0) += 1;
+            }
+        }
         if !complete {
             agg.inconclusive.insert("enumeration stopped by the wall-clock watchdog".into(), 1);
         }
-        conclude(id, tier, seed, "fault_enumeration", &agg, rules, text, sim_assumptions(), t0, extra, Some(complete))
+        let rc = conclude(id, tier, seed, "fault_enumeration", &agg, rules, text, sim_assumptions(), t0, extra, Some(complete));
+        if e2e_exit == 1 {
+            1
+        } else {
+            rc
+        }
     };
     let ft = "enumeration: canonical payments with one crash at every step and/or one write fault at every datastore write (exhaustive for the stated bound), plus random seeded hostile runs with crashes, restarts and faults; a case is one history; distinct_nontrivial = number of distinct abstract traces (sequence of (step kind, durable record, parts-status multiset, held count)) among histories in which a target rule was actually evaluated";
     match id {
